@@ -63,8 +63,12 @@ func (d *driver) stageShared() {
 			obj: "FApkOnce", probe: solo, tag: "package-fetch-error-memoised-for-the-process"},
 		{name: "package-cut-once", suffix: solo, cut: 700, nfault: 8, pkgs: []string{"solo"},
 			obj: "FApkOnce", probe: solo, tag: "package-fetch-error-memoised-for-the-process"},
-		{name: "index-get-403-once", suffix: "/x86_64/APKINDEX.tar.gz", status: 403, nfault: 1, pkgs: []string{"solo"}, tag: "index-fetch-error-memoised-with-cache-only"},
-		{name: "index-get-cut-once", suffix: "/x86_64/APKINDEX.tar.gz", cut: 300, nfault: 1, pkgs: []string{"solo"}, tag: "index-fetch-error-memoised-with-cache-only"},
+		// index faults: tag "" = counted, never raised. What keeps such a failure for the process is the parsed-index
+		// memo of index.go, which is not part of the cache (it is there, and behaves the same, without one: the 403
+		// case); with a cut body the only difference the cache makes is DURING the fault (no Range retry on the
+		// caching path), and a misbehaving origin is outside C19's quantifier. See notes/C19.md, "F7".
+		{name: "index-get-403-once", suffix: "/x86_64/APKINDEX.tar.gz", status: 403, nfault: 1, pkgs: []string{"solo"}},
+		{name: "index-get-cut-once", suffix: "/x86_64/APKINDEX.tar.gz", cut: 300, nfault: 1, pkgs: []string{"solo"}},
 	}
 	if d.tier != "thorough" {
 		cases = []sharedCase{cases[0], cases[2], cases[5]}
@@ -153,7 +157,10 @@ func (d *driver) runShared(c sharedCase) {
 			return x
 		}
 		outs, refs = append(outs, short(o)), append(refs, short(ro))
-		if i > 0 && o != ro {
+		if i > 0 && o != ro && c.tag == "" {
+			d.count("observation_index_failure_kept_by_the_parsed_index_memo_with_cache_only", c.name)
+		}
+		if i > 0 && o != ro && c.tag != "" {
 			slim := br
 			slim.InstalledDB = ""
 			d.violation(c.tag, map[string]any{"exp": "shared-cache-object", "name": c.name,
@@ -204,11 +211,13 @@ func (d *driver) runShared(c sharedCase) {
 }
 
 // stageFailedDownload: the index download of a NEWER revision fails in a process that SURVIVES
-// (the connection is cut after `off` bytes; io.Copy returns an error and retrieveAndSaveFile
-// returns without removing its temporary file) in a cache that holds an older revision and every
-// package. The leftover *.tmp is the newest entry of APKINDEX/. An offline build must then be an
-// error or the image of a served revision; and because a complete older revision IS cached, an
-// error here means fetchOffline used a partial entry although a complete one was available.
+// (the connection is cut after `off` bytes; io.Copy returns an error) in a cache that holds an older
+// revision and every package. Regression replay of finding C19-F5 (fixed by c5d0145): before the fix the
+// temporary file stayed, was the newest entry of APKINDEX/ and every offline build opened it and
+// failed. Now retrieveAndSaveFile removes it and fetchOffline only looks at advertised names: the
+// offline build is the image of the older revision. The real fetchOffline's choice in the directory
+// the failure left behind is compared with the model and judged by validate_offline (a partial entry
+// opened = viol:offline-opens-partial-entry).
 func (d *driver) stageFailedDownload() {
 	pk := []string{"plain", "solo"}
 	ix := d.w.revs[1].index
@@ -243,8 +252,9 @@ func (d *driver) stageFailedDownload() {
 		o := d.checkOffline("offline after an index download that failed in a surviving process", pk, cache, desc)
 		d.seq = false
 		d.count("offline_after_failed_index_download", fmt.Sprintf("off=%d leftover=%v -> %s", off, left, o))
-		if o == "error" && len(left) > 0 {
-			// not a wrong image, and the property allows an offline build to fail; recorded, not raised
+		if o == "error" {
+			// not a wrong image, and the property allows an offline build to fail; recorded (what is raised is
+			// the partial entry being opened, by the validator on the case emitted above)
 			d.count("offline_fails_although_a_complete_revision_is_cached", fmt.Sprintf("off=%d", off))
 		}
 		d.w.setRev(1)
